@@ -204,7 +204,7 @@ PROPS = {
     ),
     "C17": dict(
         stages=[dict(test="TestC17", pkg="c17", quick=(16, 25), thorough=(16, 2500), timeout=dict(quick=900, thorough=3300))],
-        rule="case = tunnel params (multi-denom MinDeposit, base fee), 3 accounts, 20-60 late-bound ops (create/deposit/withdraw/activate/deactivate/trigger/fund/genesis export-import round trip/MsgUpdateSignalsAndInterval by creator or stranger on active and inactive tunnels with in-range, boundary and just-out-of-range configs/governance MsgUpdateParams moving MinDeposit just above an active tunnel's total, doubling, halving or swapping its denoms (an active tunnel left below a raised minimum is outside the statement until it is next inactive or covered)/end block) on 1-3 tunnels with amounts placed around the minimum, own deposit and balance; non-trivial = "
+        rule="case = tunnel params (multi-denom MinDeposit, base fee), 3 accounts, 20-60 late-bound ops (create/deposit/withdraw/activate/deactivate/trigger/fund/genesis export-import round trip/MsgUpdateSignalsAndInterval by creator or stranger on active and inactive tunnels with in-range, boundary and just-out-of-range configs/governance MsgUpdateParams moving MinDeposit just above an active tunnel's total, doubling, halving or swapping its denoms (an active tunnel left below a raised minimum is outside the statement until it is next inactive or covered)/an exported genesis whose bank section no longer credits the tunnel module account (entry dropped or one unit short, supply adjusted) must be refused by a new node/end block) on 1-3 tunnels with amounts placed around the minimum, own deposit and balance; non-trivial = "
              ">=2 simultaneous depositors on one tunnel AND >=1 successful withdrawal crossing the minimum; distinct = hash of case JSON",
         explanation="reference ledger advanced only by successful txs; after every block: TotalDeposit == sum of deposit records == ledger == what the Deposits query of that tunnel lists, "
                     "module balance == deposits + recorded fees, exact balance deltas, no overdraw, activation only by creator with total >= min, "
